@@ -38,6 +38,7 @@ class C15(common.SpecCheck):
     unit_fn = "units.c15:c15_unit"
     fresh = True
     templates = 4
+    unit_timeout = 400
     QUICK = {"nseeds": 4, "specs": 32, "round": 32, "budget": 0}
     THOROUGH = {"nseeds": 8, "specs": 0, "round": 96, "budget": 1200}
     rule = ("history machine: each unit is one history of 2-12 operations over a pool of 2-4 specifications (the five "
